@@ -33,7 +33,7 @@ def _mutate(rng, s, rate):
     return "".join(out) or "A"
 
 
-def make_workload(seed, n_records=None, max_records=24):
+def make_workload(seed, n_records=None, max_records=24, fat=0.0):
     """Returns dict(gfa=str, gaf=str, fasta=str, n=int, names=[...])."""
     rng = random.Random("wl-%d" % seed)
     n_nodes = rng.randint(2, 8)
@@ -98,6 +98,10 @@ def make_workload(seed, n_records=None, max_records=24):
             qs, qe = len(pre), len(pre) + len(q)
             prev = (path, plen, ps, pe, read, qs, qe)
         tags = ["NM:i:%d" % rng.randint(0, 9), "id:f:0.%d" % rng.randint(1, 99)]
+        if fat and rng.random() < fat:
+            # a long optional field is copied into the output record verbatim: result messages larger
+            # than PIPE_BUF (4096), than Connection's 16 KiB header/body split and than the pipe itself
+            tags.append("zz:Z:" + "Q" * rng.choice([4200, 6000, 17000, 20000, 70000]))
         # an input CIGAR of the right total length but fragmented (realign recomputes it)
         tags.append("cg:Z:%d=" % max(1, qe - qs))
         gaf_lines.append(
